@@ -84,7 +84,10 @@ def gen_cases(tier, seed):
                 continue
             for phase in ('before', 'after'):
                 entries = [('future.cancel', 'event'), ('future.cancel', 'main'), ('shutdown_cancel', None), ('with_exc', None)]
-                for (how, frm) in (rng.sample(entries, 1) if quick else entries):
+                chosen = rng.sample(entries, 1) if quick else entries
+                if '/cb:on_queued' in k and entries[0] not in chosen:
+                    chosen = chosen + [entries[0]]  # a subscriber cancelling its own transfer from inside on_queued
+                for (how, frm) in chosen:
                     s = copy.deepcopy(base)
                     s['seed'] = rng.randrange(1 << 30)
                     if how == 'future.cancel':
